@@ -461,7 +461,9 @@ class IntegerSequence(SequenceBase):
             # TODO - check this results in sensible behaviour
             return None
         i = int(point - self.p_start) % int(self.i_step)
-        if i:
+        if self.p_stop is not None and point > self.p_stop:
+            prev_point = self.p_stop
+        elif i:
             prev_point = point - IntegerInterval.from_integer(i)
         else:
             prev_point = point - self.i_step
@@ -495,8 +497,12 @@ class IntegerSequence(SequenceBase):
                 return self.p_start
             else:
                 return None
-        i = int(point - self.p_start) % int(self.i_step)
-        next_point = point + self.i_step - IntegerInterval.from_integer(i)
+        if point < self.p_start:
+            next_point = self.p_start
+        else:
+            i = int(point - self.p_start) % int(self.i_step)
+            next_point = (
+                point + self.i_step - IntegerInterval.from_integer(i))
         ret = self._get_point_in_bounds(next_point)
         if self.exclusions and ret and ret in self.exclusions:
             return self.get_next_point(ret)
